@@ -117,6 +117,7 @@ func propC09(w *World, r *Report) {
 	checkSegDelta(w, r)
 	checkFormat0Len(w, r)
 	checkDecoderParam(w, r)
+	checkLookupRange(w, r)
 	checkPlatformRange(w, r)
 	r.Floor("segmentskip", 1)
 	checkOverlapStrict(w, r, newBoundsRun(w))
